@@ -6,7 +6,9 @@
 (* <<child, role, platform, inline>> in document order (duplicates kept);      *)
 (* refs: <<referrer, subject, artifact type>>; dtags: <<tag, on, to>>;         *)
 (* fbs: the fall-back referrer indexes <<index, subject>> a source without     *)
-(* referrers API holds under the tag sha256-<hex of subject>.                  *)
+(* referrers API holds under the tag sha256-<hex of subject>; uniq / uniqfb:    *)
+(* objects that exactly one descriptor, referrer edge or digest tag names       *)
+(* (without / with those fall-back indexes), used by (D)'s reduction.           *)
 EXTENDS TLC
 
 Shape_img == [root |-> "M",
@@ -16,6 +18,8 @@ Shape_img == [root |-> "M",
   refs |-> {},
   dtags |-> {},
   fbs |-> {},
+  uniq |-> {"C", "L1", "L2", "M"},
+  uniqfb |-> {"C", "L1", "L2", "M"},
   order |-> <<"C", "L1", "L2", "M">>]
 
 Shape_dup == [root |-> "M",
@@ -25,6 +29,8 @@ Shape_dup == [root |-> "M",
   refs |-> {},
   dtags |-> {},
   fbs |-> {},
+  uniq |-> {"C", "L2", "M"},
+  uniqfb |-> {"C", "L2", "M"},
   order |-> <<"C", "L1", "L2", "M">>]
 
 Shape_idx2 == [root |-> "I",
@@ -36,6 +42,8 @@ Shape_idx2 == [root |-> "I",
   refs |-> {},
   dtags |-> {},
   fbs |-> {},
+  uniq |-> {"L1", "C1", "C2", "M1", "M2", "I"},
+  uniqfb |-> {"L1", "C1", "C2", "M1", "M2", "I"},
   order |-> <<"L", "L1", "C1", "C2", "M1", "M2", "I">>]
 
 Shape_nested == [root |-> "O",
@@ -48,6 +56,8 @@ Shape_nested == [root |-> "O",
   refs |-> {},
   dtags |-> {},
   fbs |-> {},
+  uniq |-> {"C1", "C2", "M1", "M2", "I", "O"},
+  uniqfb |-> {"C1", "C2", "M1", "M2", "I", "O"},
   order |-> <<"L1", "C1", "C2", "M1", "M2", "I", "O">>]
 
 Shape_art == [root |-> "M",
@@ -62,6 +72,8 @@ Shape_art == [root |-> "M",
   refs |-> {<<"R1", "M", "sbom">>, <<"R2", "M", "sig">>, <<"RR", "R1", "sig">>},
   dtags |-> {},
   fbs |-> {<<"FB:M", "M">>, <<"FB:R1", "R1">>},
+  uniq |-> {"C", "L1", "M", "B1", "B2", "B3", "R1", "R2", "RR"},
+  uniqfb |-> {"C", "L1", "M", "B1", "B2", "B3", "FB:M", "FB:R1"},
   order |-> <<"C", "L1", "M", "E", "B1", "B2", "B3", "R1", "R2", "RR">>]
 
 Shape_artidx == [root |-> "I",
@@ -77,6 +89,8 @@ Shape_artidx == [root |-> "I",
   refs |-> {<<"R1", "M1", "sbom">>, <<"RI", "I", "sig">>},
   dtags |-> {},
   fbs |-> {<<"FB:M1", "M1">>, <<"FB:I", "I">>},
+  uniq |-> {"C1", "C2", "M1", "M2", "I", "B1", "B2", "R1", "RI"},
+  uniqfb |-> {"C1", "C2", "M1", "M2", "I", "B1", "B2", "FB:M1", "FB:I"},
   order |-> <<"L1", "C1", "C2", "M1", "M2", "I", "E", "B1", "B2", "R1", "RI">>]
 
 Shape_bentry == [root |-> "I",
@@ -87,6 +101,8 @@ Shape_bentry == [root |-> "I",
   refs |-> {},
   dtags |-> {},
   fbs |-> {},
+  uniq |-> {"C1", "L1", "M1", "X", "Y", "I"},
+  uniqfb |-> {"C1", "L1", "M1", "X", "Y", "I"},
   order |-> <<"C1", "L1", "M1", "X", "Y", "I">>]
 
 Shape_docker == [root |-> "DL",
@@ -98,6 +114,8 @@ Shape_docker == [root |-> "DL",
   refs |-> {},
   dtags |-> {},
   fbs |-> {},
+  uniq |-> {"C1", "C2", "D1", "D2", "DL"},
+  uniqfb |-> {"C1", "C2", "D1", "D2", "DL"},
   order |-> <<"L", "C1", "C2", "D1", "D2", "DL">>]
 
 Shape_schema1 == [root |-> "S1",
@@ -107,6 +125,8 @@ Shape_schema1 == [root |-> "S1",
   refs |-> {},
   dtags |-> {},
   fbs |-> {},
+  uniq |-> {"L1", "L2", "S1"},
+  uniqfb |-> {"L1", "L2", "S1"},
   order |-> <<"L1", "L2", "S1">>]
 
 Shape_ext == [root |-> "M",
@@ -116,6 +136,8 @@ Shape_ext == [root |-> "M",
   refs |-> {},
   dtags |-> {},
   fbs |-> {},
+  uniq |-> {"C", "L1", "LX", "M"},
+  uniqfb |-> {"C", "L1", "LX", "M"},
   order |-> <<"C", "L1", "LX", "M">>]
 
 Shape_empty == [root |-> "M",
@@ -125,6 +147,8 @@ Shape_empty == [root |-> "M",
   refs |-> {},
   dtags |-> {},
   fbs |-> {},
+  uniq |-> {"C", "L0", "L1", "M"},
+  uniqfb |-> {"C", "L0", "L1", "M"},
   order |-> <<"C", "L0", "L1", "M">>]
 
 Shape_inline == [root |-> "I",
@@ -135,6 +159,8 @@ Shape_inline == [root |-> "I",
   refs |-> {},
   dtags |-> {},
   fbs |-> {},
+  uniq |-> {"C", "L1", "M", "I"},
+  uniqfb |-> {"C", "L1", "M", "I"},
   order |-> <<"C", "L1", "M", "I">>]
 
 Shape_dtag == [root |-> "M",
@@ -145,6 +171,8 @@ Shape_dtag == [root |-> "M",
   refs |-> {},
   dtags |-> {<<"dt:S", "M", "S">>},
   fbs |-> {},
+  uniq |-> {"C", "L1", "M", "CS", "LS", "S"},
+  uniqfb |-> {"C", "L1", "M", "CS", "LS", "S"},
   order |-> <<"C", "L1", "M", "CS", "LS", "S">>]
 
 Shape_loop == [root |-> "M",
@@ -155,6 +183,8 @@ Shape_loop == [root |-> "M",
   refs |-> {},
   dtags |-> {<<"dt:S", "M", "S">>, <<"dt:M", "S", "M">>},
   fbs |-> {},
+  uniq |-> {"C", "L1", "CS", "LS", "S"},
+  uniqfb |-> {"C", "L1", "CS", "LS", "S"},
   order |-> <<"C", "L1", "M", "CS", "LS", "S">>]
 
 Shapes == ("img" :> Shape_img) @@ ("dup" :> Shape_dup) @@ ("idx2" :> Shape_idx2) @@ ("nested" :> Shape_nested) @@ ("art" :> Shape_art) @@ ("artidx" :> Shape_artidx) @@ ("bentry" :> Shape_bentry) @@ ("docker" :> Shape_docker) @@ ("schema1" :> Shape_schema1) @@ ("ext" :> Shape_ext) @@ ("empty" :> Shape_empty) @@ ("inline" :> Shape_inline) @@ ("dtag" :> Shape_dtag) @@ ("loop" :> Shape_loop)
